@@ -61,7 +61,11 @@ class SpecCtx:
 
     # entry points ---------------------------------------------------------------
     def eval(self, src: str) -> Val:
-        return self._run(lambda st: self.ev(parse_spec(src), st), self.cur)
+        out = self._run(lambda st: self.ev(parse_spec(src), st), self.cur)
+        for lm in self.lemmas:
+            self.cur.assume(lm)
+        self.lemmas = []
+        return out
 
     def eval_bool(self, src: str):
         def f(st):
@@ -85,7 +89,12 @@ class SpecCtx:
         ex.frames.append([])
         try:
             scratch = base.fork()
-            return f(scratch)
+            out = f(scratch)
+            # facts recorded while evaluating (types of heap reads, identity of objects a spec expression allocates)
+            for c in scratch.pc[len(base.pc):]:
+                if not z3.is_false(c):
+                    self.lemmas.append(c)
+            return out
         finally:
             ex.frames.pop()
             ex.spec = saved
@@ -97,7 +106,11 @@ class SpecCtx:
             fn = node.func.id
             if fn == "old":
                 s2 = self.old.fork()
-                return self.ev(node.args[0], s2)
+                r = self.ev(node.args[0], s2)
+                for c in s2.pc[len(self.old.pc):]:
+                    if not z3.is_false(c):
+                        self.lemmas.append(c)
+                return r
             if fn == "implies":
                 a = ex.truthy(st, self.ev(node.args[0], st))
                 b = ex.truthy(st, self.ev(node.args[1], st))
